@@ -21,6 +21,7 @@ with open(os.path.join(os.path.dirname(os.path.dirname(os.path.abspath(__file__)
 QUOTED = re.compile(r'"([^"]*)"')
 VN = 0x6162636465666768   # vnode ids with no zero byte: a text slice that starts one byte early would show it
 NPAT = 7
+ANSI = re.compile(r'\x1b\[[0-9;]*m')
 INVISIBLE = ['\t', 'a', '\u00a0', '\u200d', 'b', '\u3000', '\u00ad', '\uf8ff', '\u202f']
 SPECIAL = '{}%s\\{0}$(['
 
@@ -133,6 +134,57 @@ def with_gaps(evs, gap):
     return out
 
 
+def judge_headless(kind, L, pattern):
+    """the dump (or the thread's part of it) begins in the middle of a split text: the first k records are missing. The remaining
+    continuation records produce no trace and leave the tables alone."""
+    txt = text(L, pattern)
+    if kind == 'lookup':
+        evs = lookup_events(0x4142434445464748, txt)
+    elif kind == 'gstring':
+        evs = gstring_events(777, txt)
+    else:
+        evs = threadname_events(txt, tid=5, code='TRACE_STRING_THREADNAME' if kind == 'threadname' else 'TRACE_STRING_THREADNAME_PREV')
+    bad = []
+    for k in range(1, len(evs)):
+        out, p = run(evs[k:])
+        if out or p.global_strings or p.tids_names:
+            bad.append((f'continuation-record-produced-its-own-trace:{kind}:text-whose-first-records-are-missing',
+                        {'records_missing': k, 'of': len(evs), 'traces': [str(t) for t in out][:3], 'strings': repr(p.global_strings)[:100], 'names': repr(p.tids_names)[:100]}))
+            break
+    return bad
+
+
+def judge_listing(kind, L, pattern):
+    """the same text through the facade's formatted listing of a dump file: the line ends with exactly the trace's text."""
+    import io
+    from pykdebugparser.pykdebugparser import PyKdebugParser
+    txt = text(L, pattern)
+    if kind == 'lookup':
+        evs = lookup_events(0x4142434445464748, txt)
+        want = f'lookup("{txt}"), vnode id: {0x4142434445464748}'
+    elif kind == 'gstring':
+        evs = gstring_events(777, txt)
+        want = None
+    else:
+        evs = threadname_events(txt, tid=5, code='TRACE_STRING_THREADNAME' if kind == 'threadname' else 'TRACE_STRING_THREADNAME_PREV')
+        want = None
+    recs = [B.rec(i + 1, tid=e.tid, debugid=e.debugid, data=e.data) for i, e in enumerate(evs)]
+    blob = B.v2([(1, 10, 'p'), (5, 10, 'p')], 0, recs)
+    ref = [str(t) for t in run(evs)[0]]
+    bad = []
+    for color in (False, True):
+        f = PyKdebugParser()
+        f.color = color
+        try:
+            lines = [ANSI.sub('', x) for x in f.formatted_traces(io.BytesIO(blob), dict(E.codes()))]
+        except Exception as ex:
+            return [('listing-raised:' + type(ex).__name__, {'error': repr(ex)[:200], 'len': L, 'color': color})]
+        if len(lines) != len(ref) or not all(l.endswith(r) for l, r in zip(lines, ref)) or (want and ref != [want]):
+            bad.append(('listing-line-does-not-end-with-the-text', {'lines': lines[:2], 'text': ref[:2], 'color': color}))
+            break
+    return bad
+
+
 def judge_standalone(kind, L, pattern, gap=None):
     txt = text(L, pattern)
     bad = []
@@ -229,7 +281,7 @@ class C08(Check):
     level = 'model_checking'
     rule = ('texts of every byte length 0..184 x 5 content patterns (ASCII; 2-byte and 3-byte UTF-8 characters placed to '
             'straddle record boundaries; all separators; blanks and dots; characters that mean something to str.format, %-formatting and regexes; tabs, no-break / ideographic spaces, zero-width joiners, soft hyphens, private-use characters) chunked kernel-style: (a) stand-alone VFS_LOOKUP, TRACE_STRING_GLOBAL (lengths '
-            '0..184) and THREADNAME / THREADNAME_PREV (0..63) record sequences, bare and with an unrelated same-thread record (undecoded, unknown, decodable NONE, a kernel trace-data record with non-text bytes, a VFS_LOOKUP_DONE record, the own terminate record of the thread, the lost-events marker, the never-ended START of another call, a complete START/END pair) in every gap between the chunk records, and preceded by the START record of an earlier text whose END was lost - exactly one trace with exactly the text (and '
+            '0..184) and THREADNAME / THREADNAME_PREV (0..63) record sequences, bare and with an unrelated same-thread record (undecoded, unknown, decodable NONE, a kernel trace-data record with non-text bytes, a VFS_LOOKUP_DONE record, the own terminate record of the thread, the lost-events marker, the never-ended START of another call, a complete START/END pair) in every gap between the chunk records, with the first k records missing (the dump begins inside the text: no trace, no table entry), through the formatted listing of a dump file for the special-character patterns, and preceded by the START record of an earlier text whose END was lost - exactly one trace with exactly the text (and '
             'vnode id / string id), tables hold exactly the announced text; (b) every path-taking BSD decoder (66 names, frozen '
             'slot table) x one lookup of every length x patterns; x k in {0,1,2,3,6} lookups of boundary lengths '
             '{0,1,23,24,25,55,56,57,184} x an unrelated same-thread record (undecoded, unknown, decodable NONE, kernel trace data, look-alike, the own terminate record of the thread, the lost-events marker) in every gap between lookups, and (lengths 25/56/184) between the RECORDS of each multi-record lookup. '
@@ -266,6 +318,14 @@ class C08(Check):
                         acc.case(nontrivial=nrec >= 2, transitions=nrec, state=h64((kind, nrec)), outcome=h64((kind, nrec, not bad)))
                         for sig, detail in bad:
                             acc.violation(sig, {'kind': 'standalone', 'what': kind, 'len': L, 'pattern': pattern, 'gap': gap}, detail)
+                    if nrec >= 2 and pattern in (0, 5):
+                        for sig, detail in judge_headless(kind, L, pattern):
+                            acc.violation(sig, {'kind': 'headless', 'what': kind, 'len': L, 'pattern': pattern}, detail)
+                        acc.case(nontrivial=True, transitions=nrec, state=h64((kind, 'headless')))
+                    if pattern in (5, 6) and L % 7 == 3:
+                        for sig, detail in judge_listing(kind, L, pattern):
+                            acc.violation(sig, {'kind': 'listing', 'what': kind, 'len': L, 'pattern': pattern}, detail)
+                        acc.case(nontrivial=True, transitions=2 * nrec, state=h64((kind, 'listing')))
                     if not bad and nrec >= 3 and acc.want_sample():
                         acc.sample({'kind': kind, 'len': L, 'pattern': pattern, 'records': nrec})
         elif desc[0] == 'enc1':
@@ -311,6 +371,10 @@ class C08(Check):
                                 'same_tick': same_tick}, detail)
 
     def replay(self, case):
+        if case['kind'] == 'headless':
+            return judge_headless(case['what'], case['len'], case['pattern'])
+        if case['kind'] == 'listing':
+            return judge_listing(case['what'], case['len'], case['pattern'])
         if case['kind'] == 'standalone':
             return judge_standalone(case['what'], case['len'], case['pattern'], case.get('gap'))
         bad = judge_enclosed(case['decoder'], case['texts'], {int(k): v for k, v in case['gaps'].items()}, case.get('same_tick', False))
